@@ -67,3 +67,9 @@ Section Run.
     run_loop fuel {| ckind := KRe; pats := map fst events; W := Wd |} (map snd events)
              {| pend := []; buf := [] |} evs [] [].
 End Run.
+
+(** run()'s own arguments: the timeout the spawn object is created with.  [given = None]: not given, or the marker -1: the default
+    of spawn (30 s); [Some None]: None = never time out; [Some (Some t)]: t.  (logfile, cwd, env and the other keyword arguments are
+    handed on unchanged.) *)
+Definition spawn_timeout (given : option (option Z)) : option Z :=
+  match given with None => Some 30%Z | Some t => t end.
